@@ -481,6 +481,15 @@ func (x *Explorer) Bin(op token.Token, a, b *Term, typ types.Type) *Term {
 			return x.T.Const(wrapConst(v, typ, x.P.Pkg.TypesSizes), typ)
 		}
 	}
+	// (p + q) - p  =  q ;  (p + q) - q  =  p   (integers)
+	if op == token.SUB && a.Kind == KBin && a.Op == token.ADD && isIntegerTerm(a) && !isUnsigned(typ) {
+		if a.Args[0] == b {
+			return a.Args[1]
+		}
+		if a.Args[1] == b {
+			return a.Args[0]
+		}
+	}
 	// x - x, x ^ x
 	if a == b && (op == token.SUB || op == token.XOR) && isIntegerTerm(a) {
 		return x.T.Const(constant.MakeInt64(0), typ)
@@ -504,7 +513,63 @@ func (x *Explorer) Bin(op token.Token, a, b *Term, typ types.Type) *Term {
 			}
 		}
 	}
-	return x.T.mk(Term{Kind: KBin, Op: op, Args: []*Term{a, b}, Type: typ})
+	res := x.T.mk(Term{Kind: KBin, Op: op, Args: []*Term{a, b}, Type: typ})
+	// linear cancellation over signed integers: len(p) - (n + ((len(p) - n) - 4)) is 4, (a + b) - b is a
+	if (op == token.ADD || op == token.SUB) && isIntegerTerm(res) && !isUnsigned(typ) && (a.Kind == KBin || b.Kind == KBin) {
+		if atoms, k, ok := x.linear(res, 0); ok {
+			nz := 0
+			var only *Term
+			var coef int64
+			for id, cf := range atoms {
+				if cf != 0 {
+					nz++
+					only, coef = x.T.byID[id], cf
+				}
+			}
+			switch {
+			case nz == 0:
+				return x.T.Const(constant.MakeInt64(k), typ)
+			case nz == 1 && coef == 1 && k == 0 && only != nil:
+				return only
+			}
+		}
+	}
+	return res
+}
+
+// linear writes an integer term as sum(coef_i * atom_i) + k over +, - and
+// constant factors (atoms are sub-terms it does not look into).
+func (x *Explorer) linear(t *Term, depth int) (map[int]int64, int64, bool) {
+	if depth > 12 {
+		return nil, 0, false
+	}
+	if c, ok := t.Int64(); ok {
+		return map[int]int64{}, c, true
+	}
+	if t.Kind == KBin && (t.Op == token.ADD || t.Op == token.SUB) && !isUnsigned(t.Type) && !isStringType(t.Type) {
+		la, ka, ok1 := x.linear(t.Args[0], depth+1)
+		lb, kb, ok2 := x.linear(t.Args[1], depth+1)
+		if !ok1 || !ok2 {
+			return nil, 0, false
+		}
+		out := map[int]int64{}
+		for id, c := range la {
+			out[id] += c
+		}
+		sign := int64(1)
+		if t.Op == token.SUB {
+			sign = -1
+		}
+		for id, c := range lb {
+			out[id] += sign * c
+		}
+		return out, ka + sign*kb, true
+	}
+	w := x.stripWiden(t)
+	if w != t {
+		return x.linear(w, depth+1)
+	}
+	return map[int]int64{t.ID: 1}, 0, true
 }
 
 func isStringType(t types.Type) bool {
